@@ -166,7 +166,7 @@ M_MAPERR = re.compile(r"core::result::Result::map_err")
 
 
 class LockTS:
-    def __init__(self, prog, body, tracked_locals, entry_state=None, preconds=None, single_object=False, exclude=(), starts=None):
+    def __init__(self, prog, body, tracked_locals, entry_state=None, preconds=None, single_object=False, exclude=(), starts=None, lends=()):
         """tracked_locals: locals that *are* the lock (type Lock) or a `&mut Lock` to the one
         tracked object. entry_state: state at bb0 (for objects that exist on entry).
         exclude (single_object mode): lock locals that are objects of their own (created and dropped in this
@@ -188,6 +188,10 @@ class LockTS:
         # starts: {block: state} points where the tracked object comes into this body with a known state (a lock
         # handed over by a coroutine that was awaited: its state where that coroutine returned it)
         self.starts = dict(starts or {})
+        # lends: the tracked object is lent (`&mut`) to a coroutine that is awaited in place; each entry
+        # {"ctor": block of the call that builds the coroutine, "poll": block of its poll, "ok" / "err": lock states in
+        # which the coroutine completes with Ok / Err} - the summary computed by lockts_with_lends from that coroutine's body
+        self.lends = {l["ctor"]: l for l in lends}
         self.pre = preconds if preconds is not None else derive_preconditions(prog)
         self._alias()
         self.in_state = {}      # bb -> lock states (all tags)
@@ -227,6 +231,28 @@ class LockTS:
         if l in self.tracked:
             return True
         return any(x in self.tracked for x in self.ba.ref_chain(l))
+
+    def _lent_here(self, blk):
+        """Is the tracked object handed (by reference) to the coroutine built in this block: as an argument of the
+        constructor call, or as an operand of the coroutine aggregate when the constructor was inlined?"""
+        t = blk["term"]
+        if t["t"] == "call" and self.passes(t):
+            return True
+        for s in blk["stmts"]:
+            if s["s"] == "assign" and s["rv"]["k"] == "agg" and s["rv"].get("agg") == "coroutine":
+                if self.passes({"args": s["rv"].get("ops", [])}):
+                    return True
+        return False
+
+    def passes(self, t):
+        """Does call `t` receive a reference to the tracked object in any argument position?"""
+        for a in t.get("args", []):
+            l = op_local(a)
+            if l is None:
+                continue
+            if l in self.tracked or any(x in self.tracked for x in self.ba.ref_chain(l)):
+                return True
+        return False
 
     def _escapes(self, blk):
         """By-value uses of the tracked object in this block: [(kind, detail)]."""
@@ -279,6 +305,17 @@ class LockTS:
             if call_matches(ct, M_ANY) and self.is_recv(ct):
                 sw = b.blocks[br]["term"].get("target")
                 self.try_of[sw] = (ct, cont, brk)
+        self.try_lend = {}  # switch bb of the `?` applied to an awaited lender's result -> (ok, err, cont, brk)
+        if self.lends:
+            from rules.C06 import backward_direct
+            for l in self.lends.values():
+                pd = b.blocks[l["poll"]]["term"].get("dest")
+                if not pd or pd["p"]:
+                    continue
+                for (br, brk, cont, src) in ba.try_sites():
+                    a0 = op_local(b.blocks[br]["term"]["args"][0])
+                    if a0 is not None and pd["l"] in backward_direct(b, a0, depth=60)[0]:
+                        self.try_lend[b.blocks[br]["term"].get("target")] = (set(l["ok"]), set(l["err"]), cont, brk)
         # `if let Some(..) = container.as_mut()` on the Option that holds the tracked lock: the object
         # exists iff the container is Some, so the not-Some edge carries no lock state
         self.kill_edges = set()
@@ -382,6 +419,12 @@ class LockTS:
             out_default = ok_state | err_state
             if "target" in t:
                 self.pending_result[t["target"]] = (ok_state, err_state)
+        if bb in self.lends and self._lent_here(blk):
+            # the coroutine built here runs (to completion) at the await that follows; nothing else can touch the lock
+            # in between, it is mutably borrowed
+            l = self.lends[bb]
+            self._event((bb, "lend", ""), st)
+            out_default = set(l["ok"]) | set(l["err"])
         if t["t"] == "drop":
             pl = t["place"]
             if not pl["p"] and pl["l"] in self.tracked and t["ty"] == LOCK and not self.single_object:
@@ -415,6 +458,16 @@ class LockTS:
                 else:
                     self._flow(s, st, work, out_tag)
             return
+        if bb in self.try_lend:
+            oks_, errs_, cont, brk = self.try_lend[bb]
+            for s in b.succ(bb):
+                if s == cont:
+                    self._flow(s, st & oks_, work, out_tag)
+                elif s == brk:
+                    self._flow(s, st & errs_, work, out_tag)
+                else:
+                    self._flow(s, st, work, out_tag)
+            return
         succs = list(b.succ(bb))
         if out_tag is not None and t["t"] == "switch":
             es = self.ba.enum_switch(bb)
@@ -443,3 +496,54 @@ class LockTS:
 
     def state_at(self, bb):
         return self.in_state.get(bb)
+
+
+def find_lends(prog, P):
+    """[(ctor block, poll block, ready block, coroutine body)]: coroutines of the builder awaited in place by P whose
+    constructor takes a `&mut Lock`."""
+    from rules.C08 import classify_waits, future_names
+    out = []
+    for (pbb, ready, NB) in classify_waits(P, prog)["nested"]:
+        t = P.blocks[pbb]["term"]
+        _, origins = future_names(P, op_local(t["args"][0]))
+        def is_mut_lock(ty):
+            ty = (ty or "").strip()
+            return ty.startswith("&") and ty.endswith("mut " + LOCK)
+        for o in origins:
+            if o[0] == "call":
+                ct = o[2]
+                if any(p + "::{closure#0}" == NB.key for p in callee_paths(ct)) and any(is_mut_lock(ty) for ty in (ct.get("arg_tys") or [])):
+                    out.append((o[1], pbb, ready, NB))
+            elif o[0] == "agg" and o[2].get("agg") == "coroutine" and o[2].get("def") == NB.key:
+                # (the `async fn` itself - which only builds the coroutine - was spliced into P)
+                if any(op_local(x) is not None and is_mut_lock(P.locals[op_local(x)]) for x in o[2].get("ops", [])):
+                    out.append((o[1], pbb, ready, NB))
+    return out
+
+
+def lockts_with_lends(prog, P, roots, pre, **kw):
+    """LockTS of the lock object `roots` of body P where the lock may be lent (`&mut`) to coroutines that P awaits in
+    place (a retry loop moved into an `async fn`). Each such coroutine is analysed as a single-object body starting in
+    the state the lock has where P builds it; the states at its Ok returns become the lock's state on the success side
+    of the await in P. Returns (LockTS of P, [(coroutine body, its LockTS, entry state)])."""
+    cands = find_lends(prog, P)
+    if not cands:
+        return LockTS(prog, P, roots, preconds=pre, **kw), []
+    top = [{"ctor": c, "poll": pb, "ok": {"U", "O"}, "err": {"U", "O"}} for (c, pb, _, _) in cands]
+    ts0 = LockTS(prog, P, roots, preconds=pre, lends=top, **kw)
+    final, nested = [], []
+    from rules import common
+    for (c, pb, ready, NB) in cands:
+        if not ts0._lent_here(P.blocks[c]):
+            continue
+        st = ts0.state_at(c)
+        if not st:
+            continue
+        nts = LockTS(prog, NB, [], entry_state=set(st), preconds=pre, single_object=True)
+        rets = common.blocks_with_agg(NB, r"core::result::Result", "Ok") or BA.of(NB).returns()
+        ok = set()
+        for r in rets:
+            ok |= nts.state_at(r) or set()
+        final.append({"ctor": c, "poll": pb, "ok": ok or {"U", "O"}, "err": {"U", "O"}})
+        nested.append((NB, nts, set(st)))
+    return LockTS(prog, P, roots, preconds=pre, lends=final, **kw), nested
